@@ -87,6 +87,11 @@ func (c *Ctx) Doc(rule string, floor int, doc string) {
 }
 
 func (c *Ctx) add(rule, construct string, st Status, pos token.Pos, detail string) *Obligation {
+	for _, x := range c.Obl {
+		if x.Rule == rule && x.Construct == construct && x.Status == st && x.Detail == detail {
+			return x
+		}
+	}
 	o := &Obligation{Property: c.Prop, Rule: rule, Construct: construct, Status: st, Detail: detail, Config: c.Config}
 	if pos.IsValid() {
 		o.Pos = c.W.Pos(pos)
@@ -380,6 +385,14 @@ func Finish(verifDir string, ctxs []*Ctx, meta Meta, known *KnownFile, t0 time.T
 			samples = append(samples, map[string]any{"rule": o.Rule, "construct": o.Construct, "pos": o.Pos, "status": o.Status, "detail": o.Detail})
 		}
 	}
+	var listing []string
+	for _, o := range res.All {
+		d := o.Detail
+		if i := strings.Index(d, "\n"); i >= 0 {
+			d = d[:i] + " …"
+		}
+		listing = append(listing, fmt.Sprintf("%s | %s | %s | %s | %s | %s", o.Rule, o.Construct, o.Status, o.Pos, o.Config, d))
+	}
 	var fl []string
 	for f := range funcs {
 		fl = append(fl, f)
@@ -391,27 +404,28 @@ func Finish(verifDir string, ctxs []*Ctx, meta Meta, known *KnownFile, t0 time.T
 	}
 	sort.Strings(knownList)
 	cov := map[string]any{
-		"explanation":         meta.Explanation,
-		"obligations":         total,
-		"discharged":          disch,
+		"explanation":           meta.Explanation,
+		"obligations":           total,
+		"discharged":            disch,
 		"violated_or_undecided": len(seenV),
-		"known_findings":      knownList,
-		"evaluations":         total,
-		"distinct_nontrivial": len(distinct),
-		"rule":                meta.RuleText,
-		"samples":             samples,
-		"exhaustive":          true,
-		"rules":               rules,
-		"canaries":            canaries,
-		"notes":               notes,
-		"configs":             configs,
-		"packages":            ctxs[0].W.AllLogical(),
-		"functions_analysed":  len(fl),
-		"functions":           fl,
-		"paths":               paths,
-		"events":              events,
-		"checker_cmd":         fmt.Sprintf("/verif/bin/golemcheck check %s --tier %s", prop, tier),
-		"trusted_base":        meta.TrustedBase,
+		"known_findings":        knownList,
+		"evaluations":           total,
+		"distinct_nontrivial":   len(distinct),
+		"rule":                  meta.RuleText,
+		"samples":               samples,
+		"exhaustive":            true,
+		"rules":                 rules,
+		"canaries":              canaries,
+		"notes":                 notes,
+		"configs":               configs,
+		"packages":              ctxs[0].W.AllLogical(),
+		"functions_analysed":    len(fl),
+		"functions":             fl,
+		"paths":                 paths,
+		"events":                events,
+		"checker_cmd":           fmt.Sprintf("/verif/bin/golemcheck check %s --tier %s", prop, tier),
+		"trusted_base":          meta.TrustedBase,
+		"obligation_list":       listing,
 	}
 	for k, v := range extra {
 		cov[k] = v
